@@ -41,10 +41,9 @@ def search(strategy, body, seed, max_examples, shrink_calls=300, key=repr, shrin
             if k in state["seen_fail"]:
                 failed = True
             elif state["after_fail"] >= shrink_calls or time.time() - state["t_fail"] > shrink_seconds:
-                # budget used up: answer "fails" without running the oracle, so the shrinker
-                # collapses to the trivial case within a few cheap steps and stops; the
-                # reported violation is the smallest REAL failure seen (state["best"])
-                failed = True
+                # oracle budget for shrinking used up: unseen cases are answered "passes"
+                # (consistent on replay); the wall-clock bound below ends the shrink phase
+                return
             else:
                 state["after_fail"] += 1
         if not failed:
@@ -62,10 +61,24 @@ def search(strategy, body, seed, max_examples, shrink_calls=300, key=repr, shrin
         if failed:
             raise _Fail()  # the only raise site: Hypothesis keys failures by location
 
+    # Hypothesis' own cap on the shrink phase is 300 s; ours is shrink_seconds
+    try:
+        from hypothesis.internal.conjecture import engine as _engine
+        saved = _engine.MAX_SHRINKING_SECONDS
+        _engine.MAX_SHRINKING_SECONDS = shrink_seconds
+    except Exception:  # pragma: no cover - internal name moved: keep Hypothesis' default
+        _engine = None
     try:
         test()
     except _Fail:
         return state["calls"], state["best"]
     except hypothesis.errors.HypothesisException as e:
+        if state["best"] is not None:
+            # a failure was found but Hypothesis could not replay it consistently
+            # (state shared between cases in the code under test): report what was seen
+            return state["calls"], state["best"]
         raise env.HarnessError("hypothesis: %s: %s" % (type(e).__name__, e))
+    finally:
+        if _engine is not None:
+            _engine.MAX_SHRINKING_SECONDS = saved
     return state["calls"], None
